@@ -143,8 +143,34 @@ def sweep(ctx, n):
                 order = [mate, src] if i % 4 < 2 else [src, mate]
                 return f(order, p)[order.index(src)]
 
-            for kind, loc in (("outside", outside), ("inside", inside)):
+            # the far field (60 ... 700 source sizes away), for bodies stretched so that the next multipole after the dipole matters:
+            # each row is judged on its OWN scale — a switch to another expression beyond some distance shows here
+            from oracles.sources import local_size
+            far = None
+            if cls not in ("Dipole",) and (i // len(CLASSES)) % 2 == 1:
+                dfar = nps.normal(size=(4, 3))
+                dfar /= np.linalg.norm(dfar, axis=1)[:, None]
+                far = dfar * (10.0 ** nps.uniform(np.log10(60), np.log10(700), (4, 1))) * float(local_size(src))
+            for kind, loc in (("outside", outside), ("inside", inside), ("far", far)):
                 if loc is None:
+                    continue
+                if kind == "far":
+                    glob = ori.apply(loc) + pos
+                    Hq = ori.apply(reference_H(src, cls, loc, n=64))
+                    Hq2 = ori.apply(reference_H(src, cls, loc, n=42))
+                    H, B = evaluate(magpy.getH, glob), evaluate(magpy.getB, glob)
+                    rown = np.linalg.norm(Hq, axis=1) + 1e-300
+                    quad_est = float(np.max(np.linalg.norm(Hq - Hq2, axis=1) / rown))
+                    eH = float(np.max(np.linalg.norm(H - Hq, axis=1) / rown))
+                    eB = float(np.max(np.linalg.norm(B - mu_0 * Hq, axis=1) / (mu_0 * rown)))
+                    # the closed forms lose digits like (distance / size)^3 (documented for the Cuboid; the elliptic-integral forms lose more)
+                    tol = max({"CylinderSegment": 5e-5, "Cylinder": 1e-5}.get(cls, 3e-6), 30 * quad_est)
+                    done += len(loc)
+                    worst[f"{cls}:far"] = max(worst.get(f"{cls}:far", 0), eH, eB)
+                    if not (eH < tol and eB < tol):
+                        fails.append({"key": f"first-principles:{cls}:far", "desc": f"far field (60 ... 700 source sizes) differs row by row from the quadrature of the defining integral (rel. H {eH:.2g}, B {eB:.2g})",
+                                      "replay": {"class": cls, "where": "far", "local_observers": loc.tolist(), "rel_err_H": eH, "rel_err_B": eB,
+                                                 "source": {a: np.asarray(getattr(src, a)).tolist() for a in ("dimension", "diameter", "vertices", "polarization", "current", "moment") if getattr(src, a, None) is not None}}})
                     continue
                 glob = ori.apply(loc) + pos
                 n1 = 96 if kind == "inside" else 64
